@@ -11,16 +11,20 @@ EXTENDS G3DSession, Json
 CONSTANTS S, SEED, NSHARD
 
 A == <<0, 0, 0>>  B == <<S, S, 0>>  C == <<S, 0, S>>  D == <<0, S, S>>  E == <<S, 2 * S, -S>>
-MCArgPts == <<A, B, C, D>>
+\* shared constructor arguments: four Points and two Vectors (all integer triples; Mutate adds to any of them in place)
+MCArgPts == <<A, B, C, D, Sub(B, A), Sub(C, A)>>
+MCArgKinds == <<"P", "P", "P", "P", "V", "V">>
 Tri(p, q, r) == HullPolygon({LP(p), LP(q), LP(r)})
 \* how the replayer must construct each heap object: from shared argument Points (by index) or from other heap objects
 MCBuild == << [k |-> "Segment", args |-> <<1, 2>>], [k |-> "HalfLine", args |-> <<1, 3>>], [k |-> "Line", args |-> <<1, 4>>],
               [k |-> "Polygon", args |-> <<1, 2, 3>>], [k |-> "Polygon", args |-> <<1, 2, 4>>],
               [k |-> "Polygon", args |-> <<1, 3, 4>>], [k |-> "Polygon", args |-> <<2, 3, 4>>],
-              [k |-> "Polyhedron", args |-> <<4, 5, 6, 7>>], [k |-> "Plane", args |-> <<>>], [k |-> "Point", args |-> <<>>] >>
+              [k |-> "Polyhedron", args |-> <<4, 5, 6, 7>>], [k |-> "Plane", args |-> <<>>], [k |-> "Point", args |-> <<>>],
+              [k |-> "SegmentPV", args |-> <<1, 5>>], [k |-> "HalfLinePV", args |-> <<1, 6>>] >>
 MCHeap == << MkSegment(LP(A), LP(B)), MkHalfLine(LP(A), Sub(C, A)), MkLine(LP(A), Sub(D, A)),
              Tri(A, B, C), Tri(A, B, D), Tri(A, C, D), Tri(B, C, D),
-             HullBody({LP(A), LP(B), LP(C), LP(D)}), MkPlane(LP(B), <<1, -1, 2>>), MkPoint(LP(E)) >>
+             HullBody({LP(A), LP(B), LP(C), LP(D)}), MkPlane(LP(B), <<1, -1, 2>>), MkPoint(LP(E)),
+             MkSegment(LP(A), LP(B)), MkHalfLine(LP(A), Sub(C, A)) >>
 MCObjChoices == { MCHeap }
 MCMoveVecs   == { <<S, 0, 0>>, <<1, 2, -1>>, <<0, 0, -S>> }
 MCProbes     == <<>>
@@ -33,5 +37,5 @@ InMyShard == NSHARD = 1 \/ (Mix(SumSeq([n \in 1..Len(hist) |->
 \* its value when the shared Points are mutated: heap[i] changes only by Move(i, _)
 OwnInv == [][\A i \in DOMAIN heap : heap'[i] # heap[i] => (hist' # hist /\ hist'[Len(hist')].act = "Move" /\ hist'[Len(hist')].id = i)]_vars
 Emit == (Len(hist) < MaxDepth \/ ~InMyShard)
-        \/ PrintT(ToJson([hist |-> WithAnswers(hist), build |-> MCBuild, args0 |-> MCArgPts, heap0 |-> orig, heap |-> heap, args |-> args, s |-> S]))
+        \/ PrintT(ToJson([hist |-> WithAnswers(hist), build |-> MCBuild, args0 |-> MCArgPts, argk |-> MCArgKinds, heap0 |-> orig, heap |-> heap, args |-> args, s |-> S]))
 =============================================================================
